@@ -370,6 +370,11 @@ def _run_task(c, cid, st, tier, timeout_ms, both, seed, t0):
             touched.update({(t["file"], t["qualname"]): t for t in r.pop("touched", [])})
             if r["failed"]:
                 native["failed"].append({"inputs": vals, "failed": r["failed"]})
+            if r.get("error") and not r["error"].startswith("precondition not met"):
+                # a native run that did not finish (time limit, unsupported construct) decided nothing: say so instead of counting it as a pass
+                obls.append(Obligation(f"{cid}::native-run-completed", "undecided", "-", 0.0, f"{r['error']} on inputs {vals}", kind="subset").to_json())
+            if _ABORT[0]:
+                break
     return {"cid": cid, "st": st, "obligations": obls, "paths": paths, "ended": ended, "touched": list(touched.values()),
             "notes": sorted(set(notes)), "solver_calls": solver_calls, "solver_time": solver_time, "native": native,
             "wall": time.time() - t0}
